@@ -22,12 +22,6 @@ the correspondence stream runs the real solver and the model on the stacked repo
 -/
 namespace RV.G
 
-/-- `getDist` with the request log of the index side: was the back repository asked? -/
-def getDistLog (env : Env) (s : St) (q : Req) : Option Meta × Bool :=
-  match getDistIn env.front s q with
-  | some m => (some m, false)
-  | none => (getDistIn env.univ s q, true)
-
 theorem getDistLog_fst (env : Env) (s : St) (q : Req) : (getDistLog env s q).1 = getDist env s q := by
   unfold getDistLog getDist
   cases getDistIn env.front s q <;> rfl
@@ -95,6 +89,17 @@ theorem released_falls_through (env : Env) (pins : Univ) (released : List Name) 
     unfold getDistIn
     rw [find_filter_of_released pins released (keyOfReq q) hk]
   simp only [this]
+
+/-- **released_spelling_irrelevant**: the projects named after `-P` are matched by their normalised names — any
+spelling of a project (case, `-`, `_`, `.`) releases it -/
+theorem released_spelling_irrelevant (pins : Univ) (typed₁ typed₂ : List Name)
+    (h : typed₁.map normName = typed₂.map normName) :
+    solutionFrontNamed pins typed₁ = solutionFrontNamed pins typed₂ := by
+  unfold solutionFrontNamed; rw [h]
+
+theorem released_spelling_example :
+    solutionFrontNamed [("lazy_object_proxy".toList, []), ("six".toList, [])] ["Lazy-Object.Proxy".toList] =
+      [("six".toList, [])] := by decide
 
 /-- **solution_alone_uncovered_fails** -/
 theorem solution_alone_uncovered_fails (env : Env) (s : St) (q : Req) (hu : env.univ = [])
